@@ -10,8 +10,7 @@ This property is thin on proof content: once the distances are tables, "nearest"
 list" and the tolerance rule is one comparison.  What the theorems do pin down is *which* comparison the
 code makes, in which unit, on which quantity.  (Until it was fixed the edge matcher compared the squared
 coordinate-DEGREE distance with the tolerance in METRES; the old witness is kept as a regression `example`.)
-The vertex matcher rejects a distance exactly AT the tolerance (`vertex_tolerance_boundary_counterexample`),
-so its tolerance clause is `_partial`; everything else is proved in full.
+(Until it was fixed the vertex matcher rejected a distance exactly AT the tolerance; regression `example` kept.)
 
 Outside the theorems: the f32 rounding of coordinates and of `haversine`, the geometry behind `distance_2`
 (for edges it is the distance to the CENTROID of the linestring, not to the linestring), `rstar` itself.
@@ -108,7 +107,7 @@ theorem vertex_match_eq_scan (l : List (VCand α)) (hs : Sorted VCand.d2 l) : ne
 
 /-- C16 (vertex, tolerance): for a query with well-formed coordinate fields the plugin succeeds exactly
 when the nearest vertex of the origin — and of the destination, if there is one — passes the code's
-comparison `distance (converted into the tolerance unit) < tolerance`; without a configured tolerance it
+comparison `distance (converted into the tolerance unit) ≤ tolerance`; without a configured tolerance it
 succeeds whenever the network has a vertex. -/
 theorem vertex_tolerance (tol : Option (α × DistanceUnit)) (kvs : List (String × Json)) (oc dc : List (VCand α))
     (hasDst : Bool) (ho : originCoordinate (.obj kvs) = .ok ())
@@ -141,62 +140,31 @@ theorem vertex_tolerance (tol : Option (α × DistanceUnit)) (kvs : List (String
           simp [vertexProcess, ho, hd, matchVertexInto, nearestVertex, hvo, hvd, addField]
 
 /-- C16 (vertex, tolerance, the error side): with tolerance `t` in unit `u`, a nearest vertex whose
-great-circle distance `g` satisfies `t ≤ convert(g, metres → u)` makes the plugin fail with the tolerance
-error — including `g` exactly AT the tolerance (the code compares with `>=`). -/
+great-circle distance `g` satisfies `t < convert(g, metres → u)` makes the plugin fail with the tolerance
+error and never a match. -/
 theorem vertex_beyond_tolerance_is_error (t : α) (u : DistanceUnit) (kvs : List (String × Json))
     (c : VCand α) (ro dc : List (VCand α)) (g : α) (hasDst : Bool)
     (ho : originCoordinate (.obj kvs) = .ok ()) (hd : destinationCoordinate (.obj kvs) = .ok hasDst)
-    (hg : c.gc = some g) (hbeyond : t ≤ DistanceUnit.meters.convert u g) :
+    (hg : c.gc = some g) (hbeyond : t < DistanceUnit.meters.convert u g) :
     vertexProcess (some (t, u)) (.obj kvs) (c :: ro) dc = ⟨some .beyondTolerance, .obj kvs⟩ := by
   have hv := (validateTolerance_beyond_iff t u c).mpr ⟨g, hg, hbeyond⟩
   simp [vertexProcess, ho, hd, matchVertexInto, nearestVertex, hv]
 
-/-
-FULL STATEMENT of the property's tolerance clause for vertices, with `d = convert(g, metres → u)` the
-distance of the nearest vertex in the tolerance's unit:
-
-    d > t  →  error ("beyond the tolerance yields an error and never a match")
-    d ≤ t  →  match ("one within tolerance always matches")
-
-The code's comparison is `d >= t → error`, so the second line fails at `d = t` exactly
-(`vertex_tolerance_boundary_counterexample`; the edge matcher, for what its comparison is worth, uses `<=`).
-Proved: both lines for `d ≠ t`.
--/
-
-/-- C16 (vertex, tolerance, PARTIAL): strictly beyond is an error, strictly within passes the test; missing:
-the boundary `d = t`, which the code rejects. -/
-theorem vertex_tolerance_partial (t : α) (u : DistanceUnit) (c : VCand α) (g : α) (hg : c.gc = some g) :
-    (t < DistanceUnit.meters.convert u g → validateTolerance (some (t, u)) c = .error .beyondTolerance) ∧
-    (DistanceUnit.meters.convert u g < t → validateTolerance (some (t, u)) c = .ok ()) := by
-  constructor
-  · intro h; exact (validateTolerance_beyond_iff t u c).mpr ⟨g, hg, le_of_lt h⟩
-  · intro h; exact (validateTolerance_ok_iff _ c).mpr ⟨g, hg, h⟩
-
-/-- the boundary: a nearest vertex exactly 100 m away with a tolerance of 100 m is rejected (reproduced on
-the real plugin by corpus case #4 of the harness, oracle key `vertex-match/tolerance-boundary`) -/
-theorem vertex_tolerance_boundary_counterexample :
-    ∃ (t : ℚ) (c : VCand ℚ) (kvs : List (String × Json)),
-      c.gc = some t ∧ originCoordinate (.obj kvs) = .ok () ∧ destinationCoordinate (.obj kvs) = .ok false ∧
-      vertexProcess (some (t, DistanceUnit.meters)) (.obj kvs) [c] [] = ⟨some .beyondTolerance, .obj kvs⟩ := by
-  refine ⟨100, ⟨0, 1 / 1000000, some 100⟩, [("origin_x", .num "0" 0), ("origin_y", .num "0.001" 0)], rfl, ?_, ?_, ?_⟩
-  · simp [originCoordinate, numField, Json.get?, Json.lookup, Field.name, Json.isNumber]
-  · simp [destinationCoordinate, Json.get?, Json.lookup, Field.name]
-  · apply vertex_beyond_tolerance_is_error (g := 100) (hasDst := false)
-    · simp [originCoordinate, numField, Json.get?, Json.lookup, Field.name, Json.isNumber]
-    · simp [destinationCoordinate, Json.get?, Json.lookup, Field.name]
-    · rfl
-    · simp [DistanceUnit.convert, DistanceUnit.factor, Factor.apply]
+/-- regression: the witness of the former defect `vertex-match/tolerance-boundary` (a vertex exactly 100 m
+away, tolerance 100 m) now passes the tolerance test -/
+example : validateTolerance (some ((100 : ℚ), DistanceUnit.meters)) ⟨0, 1 / 1000000, some 100⟩ = .ok () := by
+  simp [validateTolerance, DistanceUnit.convert, DistanceUnit.factor, Factor.apply]
 
 /-- the same comparison read in metres: the code's table factor `k(u)` (units of `u` per metre) is
-positive, so `convert(g) < t` is `g < t / k(u)`: the tolerance cut-off sits at `t / k(u)` metres -/
+positive, so `convert(g) ≤ t` is `g ≤ t / k(u)`: the tolerance cut-off sits at `t / k(u)` metres -/
 theorem vertex_tolerance_in_metres (t g : α) (u : DistanceUnit) :
     0 < ((DistanceUnit.factor .meters u).ratio : α) ∧
-    (DistanceUnit.meters.convert u g < t ↔ g < t / ((DistanceUnit.factor .meters u).ratio : α)) := by
+    (DistanceUnit.meters.convert u g ≤ t ↔ g ≤ t / ((DistanceUnit.factor .meters u).ratio : α)) := by
   have hpos : 0 < ((DistanceUnit.factor .meters u).ratio : α) := by
     exact_mod_cast Factor.ratio_pos _ (meters_factor_wf u)
   refine ⟨hpos, ?_⟩
   unfold DistanceUnit.convert
-  rw [Factor.apply_eq, lt_div_iff₀ hpos]
+  rw [Factor.apply_eq, le_div_iff₀ hpos]
 
 /-! ### nearest admissible edge -/
 
